@@ -31,6 +31,8 @@ pub struct OkObs {
     pub display: Option<String>,
     pub crc: u32,
     pub calc: Option<render::Calc>,
+    /// panics of Display / calculate() on this frame: (stage, location, message)
+    pub op_panics: Vec<(&'static str, String, String)>,
 }
 
 pub struct Obs {
@@ -64,17 +66,25 @@ pub fn observe(bytes: &[u8]) -> Obs {
         Ok(s) => s,
         Err((loc, msg)) => return Obs { res: Res::Panic { stage: "debug", loc, msg }, alloc },
     };
+    // a panic in an operation on the decoded frame is recorded, the other observations still count
+    let mut op_panics = Vec::new();
     let display = match mon::guarded(|| frame.to_string()) {
-        Ok(s) => s,
-        Err((loc, msg)) => return Obs { res: Res::Panic { stage: "display", loc, msg }, alloc },
+        Ok(s) => Some(s),
+        Err((loc, msg)) => {
+            op_panics.push(("display", loc, msg));
+            None
+        }
     };
     let calc = match mon::guarded(|| calc_of(&frame)) {
         Ok(c) => c,
-        Err((loc, msg)) => return Obs { res: Res::Panic { stage: "calculate", loc, msg }, alloc },
+        Err((loc, msg)) => {
+            op_panics.push(("calculate", loc, msg));
+            None
+        }
     };
     let tree = dbg::parse(&debug).ok();
     let crc = frame.crc;
-    Obs { res: Res::Ok(Box::new(OkObs { frame, debug, tree, display: Some(display), crc, calc })), alloc }
+    Obs { res: Res::Ok(Box::new(OkObs { frame, debug, tree, display, crc, calc, op_panics })), alloc }
 }
 
 fn ulps_f32(a: f32, b: f32) -> u32 {
@@ -165,6 +175,12 @@ pub fn judge(g: &Gillham, col: &mut Collector, bytes: &[u8]) -> (Expectation, Ob
         }
         Res::Ok(ok) => {
             col.class(&format!("{}/ok", exp.class));
+            for (stage, loc, msg) in &ok.op_panics {
+                col.add(finding("C01", &format!("panic_{stage}"), loc, format!("{msg} at {loc} (class {})", exp.class), bytes));
+                if *stage == "display" {
+                    col.add(finding("C11", "rendering_panics", &exp.class, format!("Display panicked at {loc}: {msg}"), bytes));
+                }
+            }
             if exp.verdict != Verdict::Accept {
                 col.add(finding("C02", "accepts_invalid", &format!("{}/{:?}", exp.class, exp.verdict), format!("decoder accepted a buffer that must be rejected ({:?}); debug {}", exp.verdict, ok.debug), bytes));
                 return (exp, obs);
